@@ -3,7 +3,7 @@ import json, os
 import verif
 
 
-KID = {"f": ("x", "file"), "s": ("x", "symlink"), "t": ("x", "symlink"), "d": ("x", "dir"), "e": ("../../esc", "file"), "u": ("..", "file")}
+KID = {"S": ("x", "symlink"), "T": ("x", "symlink"), "f": ("x", "file"), "s": ("x", "symlink"), "t": ("x", "symlink"), "d": ("x", "dir"), "e": ("../../esc", "file"), "u": ("..", "file")}
 
 
 OUT = {"outdir": "outside/dir", "outfile": "outside/file", "symlink-dir": "outside/dir", "symlink-file": "outside/file"}
